@@ -61,6 +61,9 @@ VERIF_MSG = re.compile(r'(postcondition not satisfied|precondition not satisfied
                        r'failed to (prove|satisfy)|unable to prove|assert_by|not satisfied|resource limit|loop invariant)', re.I)
 
 
+TAGGED = re.compile(r'//\s*\[[A-Z0-9, ]+\]\s*$')
+
+
 def classify(res, unit, fname):
     """Turn Verus diagnostics into a list of failures with attribution, or an infrastructure
     problem."""
@@ -98,8 +101,11 @@ def classify(res, unit, fname):
             if k in ('body', 'sig', 'proof'):
                 body_fn = body_fn or meta.get('fn')
             if k in ('spec', 'loopinv') or (k == 'prelude' and meta.get('tags')):
-                if meta.get('tags'):
-                    tags = list(dict.fromkeys(tags + meta['tags']))
+                # a clause may span several lines; its tag comment sits on the last one
+                for ln2 in range(ln, min(s.get('line_end', ln), len(unit.linemeta)) + 1):
+                    m2 = unit.linemeta[ln2 - 1]
+                    if m2.get('kind') == k and TAGGED.search(unit.out[ln2 - 1]):
+                        tags = list(dict.fromkeys(tags + m2['tags']))
                 clause = clause or unit.out[ln - 1].strip()
                 fn = fn or meta.get('fn')
         pm = unit.linemeta[prim[0]['line_start'] - 1]
